@@ -13,11 +13,24 @@ class C01(SCheck):
     rule = ("case = 1-4 regular files with sizes at block / kernel-limit boundaries (0, 1, kB-1, kB, kB+1, >M), dense or holey layouts, prior "
             "destination absent/shorter/longer/same length; x driver x workers x block size (incl. --no-progress) x reflink {auto,never} x "
             "kernel per-call limit M in {none,1,7,4096,65536}; distinct = distinct (thread, call) signature; non-trivial = at least one data "
-            "byte was copied (file size > 0)")
+            "byte was copied (file size > 0); thorough tier only: one file larger than 2 GiB copied in a single request by both drivers with "
+            "no clamp, so that the real kernel's short count (2 GiB - 4 KiB) is met")
     assumptions = ["kernel per-call limit simulated by clamping the length argument (stands in for MAX_RW_COUNT on > 2 GiB files)",
-                   "file data <= 300 KiB per file (apparent size up to 64 MiB)"]
+                   "file data <= 300 KiB per file (apparent size up to 64 MiB), except the one > 2 GiB calibration case of the thorough tier"]
+
+    def gen_plans(self, r, case, k):
+        if case.get("huge"):
+            return [{"seed": r.randrange(1 << 48), "sched": {"kind": "random"}, "inv_override": {"driver": d}} for d in ("parblock", "parfile")]
+        return super().gen_plans(r, case, k)
 
     def gen_case(self, r, idx, tier):
+        if tier == "thorough" and idx == 5:
+            # calibration of the simulated per-call limit against the real one: a file larger than the kernel's MAX_RW_COUNT
+            # (2 GiB - 4 KiB) copied in one request (--no-progress) with no clamp at all; the real kernel returns the short count
+            size = (1 << 31) + r.randrange(1, 1 << 20)
+            ops = [gen.d_op("src"), gen.d_op("dst"), gen.f_op("src/huge", size, pat=r.randrange(1, 1 << 30))]
+            inv = gen.mk_inv(["src/huge"], "dst", driver="parblock", workers=2, block_size=65536, no_progress=True, reflink="never")
+            return {"setup": ops, "steps": [{"inv": inv}], "kernel": {}, "max_events": 400000, "timeout_s": 180, "huge": True}
         driver, workers, bs = gen.pick_config(r)
         M = r.choice([None, None, 1, 7, 4096, 65536])
         no_progress = r.random() < 0.2
